@@ -5,6 +5,8 @@ CONSTANTS
   HasHf = FALSE
   Absent0 <- AbsLast
   Admin = TRUE
+  AlwaysW = TRUE
+  AlwaysPRs = TRUE
   Cmds = {}
   Rewrites = FALSE
   NP = 1
